@@ -148,14 +148,18 @@ def constant_split(G, cf, r):
     return w / float(np.sum(G['s'] * w))
 
 
-def subchannel_ff(family, G, cf, bounds, re_b, x):
+def subchannel_ff(family, G, cf, bounds, re_b, x, xl=None, xt=None):
     """Darcy friction factor of each subchannel type at bundle Reynolds
     number re_b and split x ([CT86] eqs. 9-11 per subchannel; [CTN18] eq. 4
-    for the upgraded transition blend). Returns f_i, Re_i, psi_i."""
+    for the upgraded transition blend). Returns f_i, Re_i, psi_i.
+    xl, xt: laminar/turbulent splits that define the subchannel regime
+    boundaries (default: the ones that follow from cf)."""
     x = np.asarray(x, dtype=float)
     re_i = re_b * x * G['de'] / G['De_b']
-    xl = constant_split(G, cf, 'laminar')
-    xt = constant_split(G, cf, 'turbulent')
+    if xl is None:
+        xl = constant_split(G, cf, 'laminar')
+    if xt is None:
+        xt = constant_split(G, cf, 'turbulent')
     re_il = bounds[0] * xl * G['de'] / G['De_b']
     re_it = bounds[1] * xt * G['de'] / G['De_b']
     psi = np.log10(re_i / re_il) / np.log10(re_it / re_il)
@@ -169,13 +173,60 @@ def subchannel_ff(family, G, cf, bounds, re_b, x):
     return f, re_i, psi
 
 
-def gradients(family, G, cf, bounds, re_b, x, grid_k_total=0.0, length=1.0):
+def gradients(family, G, cf, bounds, re_b, x, grid_k_total=0.0, length=1.0,
+              xl=None, xt=None):
     """Pressure gradient of each subchannel type divided by rho*v_b^2/2:
     (f_i / De_i + K_total / L) x_i^2."""
-    f, re_i, psi = subchannel_ff(family, G, cf, bounds, re_b, x)
+    f, re_i, psi = subchannel_ff(family, G, cf, bounds, re_b, x, xl, xt)
     x = np.asarray(x, dtype=float)
     return (f / G['de'] + grid_k_total / length) * x * x, f, psi
 
 
 def bundle_gradient(f_b, G, grid_k_total=0.0, length=1.0):
     return f_b / G['De_b'] + grid_k_total / length
+
+
+def solve_split(family, G, cf, bounds, re_b, x0, grid_k_total=0.0, length=1.0,
+                xl=None, xt=None, tol=1e-12, itmax=600):
+    """Equal-gradient split (sum s_i x_i = 1) by damped successive
+    approximation started from x0; damping is halved whenever the step grows.
+    Returns (x, converged)."""
+    x = np.array(x0, dtype=float)
+    w = 0.5
+    last = float('inf')
+    for _ in range(itmax):
+        f, _, _ = subchannel_ff(family, G, cf, bounds, re_b, x, xl, xt)
+        t = f * length / G['de'] + grid_k_total
+        r = np.sqrt(t[1] / t)
+        xn = r / float(np.sum(G['s'] * r))
+        step = float(np.max(np.abs(xn - x)))
+        if not np.isfinite(step):
+            return x, False
+        if step < tol:
+            return xn, True
+        if step > last and w > 0.02:
+            w *= 0.5
+        last = step
+        x = (1.0 - w) * x + w * xn
+    return x, False
+
+
+def successive_approx(family, G, cf, bounds, re_b, grid_k_total=0.0,
+                      length=1.0, xl=None, xt=None, stop=1e-5, itmax=100,
+                      test='edge'):
+    """Undamped successive approximation from x = (1, 1, 1) that stops when
+    the edge split (test='edge') or every split (test='all') moves by less
+    than `stop`. Only used to *name* a mechanism in a violation key (a split
+    that this scheme reproduces exactly was stopped by the edge-only test).
+    Returns x or None when the iteration limit is reached."""
+    x = np.ones(3)
+    for _ in range(itmax):
+        f, _, _ = subchannel_ff(family, G, cf, bounds, re_b, x, xl, xt)
+        t = f * length / G['de'] + grid_k_total
+        r = np.sqrt(t[1] / t)
+        xn = r / float(np.sum(G['s'] * r))
+        d = np.abs(xn - x)
+        if (d[1] if test == 'edge' else float(np.max(d))) < stop:
+            return xn
+        x = xn
+    return None
